@@ -284,22 +284,55 @@ theorem addDeps_inv (deps : List (Option TaskRef)) (g : GState) (v : Nat) (h : G
         rw [modify_has _ c _ id2, modify_has _ v _ id1]
         exact hv1
 
-theorem buildStep_inv (g : GState) (op : GOp) (h : GInv g) : GInv (buildStep g op) := by
+/-- the invariant only speaks about the vertices -/
+theorem ginv_of_verts (g g' : GState) (hv : g'.verts = g.verts) (h : GInv g) : GInv g' := by
+  have hi : g'.ids = g.ids := by simp [GState.ids, hv]
+  have hh : ∀ y, g'.has y = g.has y := by intro y; simp [GState.has, hv]
+  have hc : ∀ y, g'.children y = g.children y := by intro y; simp [GState.children, GState.find, hv]
+  have hp : ∀ y, g'.parents y = g.parents y := by intro y; simp [GState.parents, GState.find, hv]
+  refine ⟨by rw [hi]; exact h.nodup, ?_, ?_, ?_⟩
+  · intro v c hc'; rw [hc] at hc'; rw [hh]; exact h.kids v c hc'
+  · intro v q hq; rw [hp] at hq; rw [hh]; exact h.pars v q hq
+  · intro a c; rw [hc, hp]; exact h.sym a c
+
+theorem evalRef_verts (g : GState) (t : Option TaskRef) : (evalRef g t).1.verts = g.verts := by
+  unfold evalRef
+  split
+  · rfl
+  · split
+    · rfl
+    · split <;> rfl
+    · split <;> rfl
+
+theorem evalRefs_verts (g : GState) (ts : List (Option TaskRef)) : (evalRefs g ts).1.verts = g.verts := by
+  induction ts generalizing g with
+  | nil => rfl
+  | cons t r ih => simp only [evalRefs]; rw [ih, evalRef_verts]
+
+theorem evalRef_inv (g : GState) (t : Option TaskRef) (h : GInv g) : GInv (evalRef g t).1 :=
+  ginv_of_verts g _ (evalRef_verts g t) h
+
+theorem evalRefs_inv (g : GState) (ts : List (Option TaskRef)) (h : GInv g) : GInv (evalRefs g ts).1 :=
+  ginv_of_verts g _ (evalRefs_verts g ts) h
+
+theorem buildCore_inv (g : GState) (op : GOp) (h : GInv g) : GInv (buildCore g op) := by
   cases op with
+  | lookup t => exact h
+  | tmAdd id f => exact ginv_of_verts g _ rfl h
   | addTask t =>
-    simp only [buildStep]
+    simp only [buildCore]
     split
     · rename_i g' hr; exact (addTask_inv g g' _ h hr).1
     · exact ⟨h.nodup, h.kids, h.pars, h.sym⟩
   | dependsOn t deps =>
-    simp only [buildStep]
+    simp only [buildCore]
     split
     · exact ⟨h.nodup, h.kids, h.pars, h.sym⟩
     · rename_i g1 v hr
       have r := retrieveOrAdd_inv g g1 _ v h hr
       exact addDeps_inv _ g1 v r.1 r.2.2.2
   | retries t n0 =>
-    simp only [buildStep]
+    simp only [buildCore]
     generalize (if n0 < 0 then (0 : Int) else n0) = n
     split
     · exact ⟨h.nodup, h.kids, h.pars, h.sym⟩
@@ -322,6 +355,14 @@ theorem buildStep_inv (g : GState) (op : GOp) (h : GInv g) : GInv (buildStep g o
       · intro y k hk; rw [hch] at hk; rw [modify_has g1 v _ id1]; exact r.1.kids y k hk
       · intro y p hp; rw [hpa] at hp; rw [modify_has g1 v _ id1]; exact r.1.pars y p hp
       · intro a k; rw [hch, hpa]; exact r.1.sym a k
+
+theorem buildStep_inv (g : GState) (op : GOp) (h : GInv g) : GInv (buildStep g op) := by
+  cases op with
+  | addTask t => simp only [buildStep]; exact buildCore_inv _ _ (evalRef_inv g t h)
+  | dependsOn t deps => simp only [buildStep]; exact buildCore_inv _ _ (evalRefs_inv _ deps (evalRef_inv g t h))
+  | retries t n => simp only [buildStep]; exact buildCore_inv _ _ (evalRef_inv g t h)
+  | lookup t => simp only [buildStep]; exact evalRef_inv g t h
+  | tmAdd id f => simp only [buildStep]; exact buildCore_inv _ _ h
 
 /-- **Build invariant**: every history of construction calls yields a well-formed graph. -/
 theorem buildGraph_inv (ops : List GOp) : GInv (buildGraph ops) := by
